@@ -1,4 +1,4 @@
-use crate::case::{GCase, Part};
+use vglue::case::{GCase, Part};
 use crate::pipe::BASE_FLAG_NAMES;
 use vcommon::report::Report;
 use vcommon::sweep::Outcome;
@@ -59,6 +59,19 @@ pub fn run_case(c: &GCase) -> Outcome {
         "C19" => vglue::with_kmer!(c.k, K => c19::run::<K>(c)),
         "C06" => vglue::with_kmer!(c.k, K => c06::run::<K>(c)),
         p => panic!("no such property {}", p),
+    }
+}
+
+/// re-run one E2 model instance (replay); Some(list of violations) or None if not replayable
+pub fn replay_model(prop: &str, case: &serde_json::Value) -> Option<Vec<String>> {
+    match prop {
+        "C18" => {
+            let m = &case["model"];
+            let lens: Vec<usize> = m["node_kmer_counts"].as_array()?.iter().map(|x| x.as_u64().unwrap() as usize).collect();
+            let (_, r) = c18::e2_instance(m["k"].as_u64()? as usize, &lens, m["seed"].as_u64()?, m["node"].as_u64()? as usize);
+            Some(r.discoveries.iter().map(|(n, a, s)| format!("{} after {:?}: {}", n, a, s)).collect())
+        }
+        _ => None,
     }
 }
 
